@@ -24,6 +24,9 @@ type parseModel struct {
 	setCall  *ast.CallExpr
 	splitAs  *ast.AssignStmt
 	splitFn  *types.Func
+	// an element split written inline (several consecutive statements that
+	// define and refine the two halves): the statements, the first being splitAs
+	splitRegion []ast.Stmt
 	abvObj   types.Object
 	valObj   types.Object
 	orderVar *types.Var
@@ -235,7 +238,201 @@ func (p *Pkg) fillParseModel(m *parseModel) (kvmCall *ast.CallExpr) {
 			})
 		}
 	}
+	// an inline split: `abv, v := elem, ""; if c := IndexByte(abv, ':'); c >= 0 { abv, v = abv[:c], abv[c+1:] }`
+	if m.splitAs == nil && m.setCall != nil && len(m.setCall.Args) == 2 && m.loop != nil {
+		ao, vo := identObj(info, m.setCall.Args[0]), identObj(info, m.setCall.Args[1])
+		if ao != nil && vo != nil && ao != vo {
+			var lists [][]ast.Stmt
+			ast.Inspect(m.loop, func(n ast.Node) bool {
+				if b, ok := n.(*ast.BlockStmt); ok {
+					lists = append(lists, b.List)
+				}
+				return true
+			})
+			defines := func(s ast.Stmt, o types.Object) bool {
+				found := false
+				switch st := s.(type) {
+				case *ast.AssignStmt:
+					if st.Tok == token.DEFINE {
+						for _, l := range st.Lhs {
+							if id, ok := l.(*ast.Ident); ok && info.Defs[id] == o {
+								found = true
+							}
+						}
+					}
+				case *ast.DeclStmt:
+					ast.Inspect(st, func(n ast.Node) bool {
+						if id, ok := n.(*ast.Ident); ok && info.Defs[id] == o {
+							found = true
+						}
+						return true
+					})
+				}
+				return found
+			}
+			for _, L := range lists {
+				i0, i1, iSet := -1, -1, -1
+				defA, defV := false, false
+				for i, st := range L {
+					if nodeContains(st, m.setCall) {
+						iSet = i
+						break
+					}
+					dA, dV := defines(st, ao), defines(st, vo)
+					if (dA || dV) && i0 < 0 {
+						i0 = i
+					}
+					defA, defV = defA || dA, defV || dV
+					if i0 >= 0 && (assignedIn(info, st, ao) || assignedIn(info, st, vo) || dA || dV) {
+						i1 = i
+					}
+				}
+				if i0 < 0 || iSet < 0 || !defA || !defV {
+					continue
+				}
+				as, ok := L[i0].(*ast.AssignStmt)
+				if !ok {
+					continue
+				}
+				m.splitAs, m.splitFn = as, nil
+				m.splitRegion = L[i0 : i1+1]
+				m.abvObj, m.valObj = ao, vo
+				break
+			}
+		}
+	}
 	return kvmCall
+}
+
+// nodeContains: n is a descendant of (or is) root
+func nodeContains(root ast.Node, n ast.Node) bool {
+	found := false
+	ast.Inspect(root, func(x ast.Node) bool {
+		if x == n {
+			found = true
+		}
+		return !found
+	})
+	return found
+}
+
+// assignedOutside: o is assigned somewhere in body other than inside the given statements
+func assignedOutside(info *types.Info, body ast.Node, o types.Object, region []ast.Stmt) bool {
+	out := false
+	ast.Inspect(body, func(n ast.Node) bool {
+		if s, ok := n.(ast.Stmt); ok {
+			for _, r := range region {
+				if s == r {
+					return false
+				}
+			}
+		}
+		switch st := n.(type) {
+		case *ast.AssignStmt:
+			for _, l := range st.Lhs {
+				if id, ok := l.(*ast.Ident); ok && st.Tok != token.DEFINE && info.Uses[id] == o {
+					out = true
+				}
+			}
+		case *ast.IncDecStmt:
+			if identObj(info, st.X) == o {
+				out = true
+			}
+		case *ast.UnaryExpr:
+			if st.Op == token.AND && identObj(info, st.X) == o {
+				out = true
+			}
+		}
+		return true
+	})
+	return out
+}
+
+// parserBody: the function that holds the parser proper. It is ParseVector
+// itself, or — when ParseVector only borrows/returns resources around one call
+// `x, err := h(…)` of a package function returning (*T, error) and hands those
+// two results back unchanged on every later path — that function h.
+func (p *Pkg) parserBody() (*ast.FuncDecl, string) {
+	pv := p.Funcs["ParseVector"]
+	if pv == nil || pv.Body == nil {
+		return pv, ""
+	}
+	info := p.Info
+	setFn := p.method("Set")
+	hasSet := false
+	ast.Inspect(pv.Body, func(n ast.Node) bool {
+		if c, ok := n.(*ast.CallExpr); ok {
+			if fn := calleeOf(info, c); fn != nil && setFn != nil && p.FuncObj[fn] == setFn {
+				hasSet = true
+			}
+		}
+		return !hasSet
+	})
+	if hasSet {
+		return pv, ""
+	}
+	for i, s := range pv.Body.List {
+		as, ok := s.(*ast.AssignStmt)
+		if !ok || len(as.Lhs) != 2 || len(as.Rhs) != 1 || as.Tok != token.DEFINE {
+			continue
+		}
+		call, ok := as.Rhs[0].(*ast.CallExpr)
+		if !ok {
+			continue
+		}
+		fn := calleeOf(info, call)
+		if fn == nil || fn.Pkg() != p.P.Types || p.FuncObj[fn] == nil || p.FuncObj[fn].Recv != nil {
+			continue
+		}
+		sig := fn.Type().(*types.Signature)
+		if sig.Results().Len() != 2 || !p.isTPtrOrVal(sig.Results().At(0).Type()) || sig.Params().Len() != 1 {
+			continue
+		}
+		xo, eo := identObj(info, as.Lhs[0]), identObj(info, as.Lhs[1])
+		if xo == nil || eo == nil {
+			continue
+		}
+		// what follows: calls into other packages (giving a buffer back) and `return x, err`
+		okRest, nRet := true, 0
+		for _, r := range pv.Body.List[i+1:] {
+			switch st := r.(type) {
+			case *ast.ExprStmt:
+				c, isCall := st.X.(*ast.CallExpr)
+				if !isCall {
+					okRest = false
+					break
+				}
+				if cf := calleeOf(info, c); cf == nil || cf.Pkg() == p.P.Types {
+					okRest = false
+				}
+			case *ast.ReturnStmt:
+				nRet++
+				if len(st.Results) != 2 || identObj(info, st.Results[0]) != xo || identObj(info, st.Results[1]) != eo {
+					okRest = false
+				}
+			default:
+				okRest = false
+			}
+		}
+		if !okRest || nRet != 1 {
+			continue
+		}
+		// what precedes: no return (nothing else decides the answer), no write to x / err
+		pre := true
+		for _, r := range pv.Body.List[:i] {
+			ast.Inspect(r, func(n ast.Node) bool {
+				if _, isRet := n.(*ast.ReturnStmt); isRet {
+					pre = false
+				}
+				return true
+			})
+		}
+		if !pre {
+			continue
+		}
+		return p.FuncObj[fn], "ParseVector hands the work to " + fn.Name() + " and returns its two results unchanged"
+	}
+	return pv, ""
 }
 
 // parseModelOf: the located parts of ParseVector, for rule groups other than `parse`
@@ -243,7 +440,7 @@ func (p *Pkg) parseModelOf() *parseModel {
 	if p.pm != nil {
 		return p.pm
 	}
-	fd := p.Funcs["ParseVector"]
+	fd, _ := p.parserBody()
 	m := &parseModel{p: p, fd: fd}
 	p.pm = m
 	if fd == nil || fd.Body == nil {
@@ -269,10 +466,13 @@ func (w *World) rulesParsePkg(p *Pkg, out *[]Obligation) {
 		}
 		*out = append(*out, Obligation{Rule: rule, Instance: k + "." + inst, Pos: pos, OK: ok, Detail: detail, NonTrivial: true})
 	}
-	fd := p.Funcs["ParseVector"]
+	fd, delegated := p.parserBody()
 	if fd == nil || fd.Body == nil {
 		add(false, "R01.pair", "ParseVector", nil, "no ParseVector function")
 		return
+	}
+	if delegated != "" {
+		add(true, "R01.pair", "ParseVector.wrapper", p.Funcs["ParseVector"], delegated+": the parser rules are applied to that function")
 	}
 	m := &parseModel{p: p, fd: fd}
 	params := paramObjs(info, fd)
@@ -314,13 +514,28 @@ func (w *World) rulesParsePkg(p *Pkg, out *[]Obligation) {
 
 	// ---- R06.same
 	okSame := len(m.setCall.Args) == 2 && identObj(info, m.setCall.Args[0]) == m.abvObj && identObj(info, m.setCall.Args[1]) == m.valObj &&
-		m.abvObj != nil && m.valObj != nil && !assignedIn(info, fd.Body, m.abvObj) && !assignedIn(info, fd.Body, m.valObj)
+		m.abvObj != nil && m.valObj != nil
+	if m.splitRegion != nil {
+		okSame = okSame && !assignedOutside(info, fd.Body, m.abvObj, m.splitRegion) && !assignedOutside(info, fd.Body, m.valObj, m.splitRegion)
+	} else {
+		okSame = okSame && !assignedIn(info, fd.Body, m.abvObj) && !assignedIn(info, fd.Body, m.valObj)
+	}
 	if se, ok := m.setCall.Fun.(*ast.SelectorExpr); !ok || identObj(info, se.X) != m.objVar {
 		okSame = false
 	}
-	add(okSame, "R06.same", "ParseVector.Set", m.setCall, map[bool]string{true: fmt.Sprintf("Set receives (#0, #1) of one %s call on the current element, on the object that is returned; neither is reassigned", m.splitFn.Name()), false: "the arguments of Set are not the abbreviation and value halves of the same element (swapped, stale or reassigned), or Set is applied to another object"}[okSame])
+	splitName := "inline"
+	if m.splitFn != nil {
+		splitName = m.splitFn.Name()
+	}
+	add(okSame, "R06.same", "ParseVector.Set", m.setCall, map[bool]string{true: fmt.Sprintf("Set receives (#0, #1) of one %s split of the current element, on the object that is returned; neither is reassigned afterwards", splitName), false: "the arguments of Set are not the abbreviation and value halves of the same element (swapped, stale or reassigned), or Set is applied to another object"}[okSame])
 	// R06.cut: the package's own splitter
-	if m.splitFn.Pkg() == p.P.Types {
+	if m.splitFn == nil {
+		ok, why, decided := p.checkRegionCutBounded(m)
+		if !decided {
+			ok, why = false, "the inline split of the element cannot be evaluated: undecided"
+		}
+		add(ok, "R06.cut", "inline", m.splitAs, why)
+	} else if m.splitFn.Pkg() == p.P.Types {
 		ok, why := p.checkSplitCouple(p.FuncObj[m.splitFn])
 		if !ok {
 			// not the recognised loop: evaluate the split statement itself
@@ -392,15 +607,64 @@ func (w *World) rulesParsePkg(p *Pkg, out *[]Obligation) {
 		}
 		checkProp(m.setCall, "Set")
 		add = realAdd
-	} else {
-		checkProp(m.setCall, "Set")
 	}
+	// free-order parsers: the syntactic verdicts on error propagation and on
+	// skipped elements are collected first; where one fails, the rest of the
+	// iteration is evaluated per scenario (freeStep) and its verdict stands
+	var freeDeferred []Obligation
+	realAddFree := add
 	if ov.Order == "free" {
+		add = func(ok bool, rule, inst string, n ast.Node, detail string) {
+			if rule != "R01.prop" && rule != "R01.noskip" {
+				realAddFree(ok, rule, inst, n, detail)
+				return
+			}
+			pos := k
+			if n != nil {
+				pos = p.pos(n)
+			}
+			freeDeferred = append(freeDeferred, Obligation{Rule: rule, Instance: k + "." + inst, Pos: pos, OK: ok, Detail: detail, NonTrivial: true})
+		}
+		defer func() {
+			bad := false
+			for _, o := range freeDeferred {
+				if !o.OK {
+					bad = true
+				}
+			}
+			if bad {
+				fs := p.freeStep(m, kvmCall)
+				w.Extra["parse_step_"+k] = map[string]any{"decided": fs.decided, "why": fs.why, "set": fs.setWhy, "kvm": fs.kvmWhy, "noskip": fs.noskipWhy}
+				if fs.decided {
+					for i := range freeDeferred {
+						o := &freeDeferred[i]
+						switch {
+						case o.Rule == "R01.prop" && strings.HasSuffix(o.Instance, "ParseVector.Set"):
+							o.OK, o.Detail = fs.setOK, fs.setWhy
+						case o.Rule == "R01.prop" && strings.HasSuffix(o.Instance, "ParseVector.kvm.Set") && kvmCall != nil:
+							o.OK, o.Detail = fs.kvmOK, fs.kvmWhy
+						case o.Rule == "R01.noskip" && strings.HasSuffix(o.Instance, "ParseVector.loop"):
+							o.OK, o.Detail = fs.noskipOK, fs.noskipWhy
+						}
+					}
+				}
+			}
+			*out = append(*out, freeDeferred...)
+		}()
+		checkProp(m.setCall, "Set")
 		if kvmCall == nil {
 			add(false, "R01.complete", "ParseVector.kvm", fd, "no defined-once check (kvm.Set) in the loop: a repeated metric is accepted")
 		} else {
 			checkProp(kvmCall, "kvm.Set")
-			okArg := len(kvmCall.Args) == 1 && identObj(info, kvmCall.Args[0]) == m.abvObj
+			okArg := false
+			for _, a := range kvmCall.Args {
+				if identObj(info, a) == m.abvObj {
+					okArg = true
+				}
+			}
+			if len(kvmCall.Args) > 2 || (m.valObj != nil && nodeMentions(info, kvmCall, m.valObj)) {
+				okArg = false
+			}
 			add(okArg, "R06.same", "ParseVector.kvm", kvmCall, map[bool]string{true: "the defined-once check uses the same abbreviation as Set", false: "the defined-once check is applied to something other than the element's abbreviation"}[okArg])
 			add(kvmCall.Pos() < m.setCall.Pos() && p.blockReaches(m.g, kvmCall, m.setCall), "R18.order", "ParseVector.kvm<Set", kvmCall, "kvm.Set is evaluated before T.Set on the element (unknown/repeated metric errors take precedence)")
 		}
@@ -968,8 +1232,15 @@ func (w *World) rulesSplit(p *Pkg, m *parseModel, add func(ok bool, rule, inst s
 	}
 	// split function: called in ParseVector with (slice, param)
 	var sfd *ast.FuncDecl
-	ast.Inspect(m.fd.Body, func(n ast.Node) bool {
-		if c, ok := n.(*ast.CallExpr); ok && len(c.Args) == 2 && identObj(info, c.Args[1]) == m.param {
+	// (searched in ParseVector itself: the parser proper may be a function it delegates to)
+	splitHome, splitParam := m.fd, m.param
+	if pv := p.Funcs["ParseVector"]; pv != nil && pv != m.fd && pv.Body != nil {
+		if prm := paramObjs(info, pv); len(prm) == 1 {
+			splitHome, splitParam = pv, prm[0]
+		}
+	}
+	ast.Inspect(splitHome.Body, func(n ast.Node) bool {
+		if c, ok := n.(*ast.CallExpr); ok && len(c.Args) == 2 && identObj(info, c.Args[1]) == splitParam {
 			if fn := calleeOf(info, c); fn != nil && fn.Pkg() == p.P.Types {
 				sfd = p.FuncObj[fn]
 			}
@@ -983,12 +1254,68 @@ func (w *World) rulesSplit(p *Pkg, m *parseModel, add func(ok bool, rule, inst s
 	sp := paramObjs(info, sfd)
 	K := -1
 	var currObj types.Object
+	// the bound: a constant, len(dst) ± constant with dst the N-slot slice, or a
+	// local defined once from such an expression
+	var bound func(e ast.Expr, depth int) (int, bool)
+	bound = func(e ast.Expr, depth int) (int, bool) {
+		if u, ok := constUint(info, e); ok {
+			return int(u), true
+		}
+		switch x := e.(type) {
+		case *ast.ParenExpr:
+			return bound(x.X, depth)
+		case *ast.CallExpr:
+			if id, ok := x.Fun.(*ast.Ident); ok && id.Name == "len" && len(x.Args) == 1 && identObj(info, x.Args[0]) == sp[0] && N >= 0 && !assignedIn(info, sfd.Body, sp[0]) {
+				return N, true
+			}
+		case *ast.BinaryExpr:
+			if x.Op == token.SUB || x.Op == token.ADD {
+				a, ok1 := bound(x.X, depth)
+				b, ok2 := bound(x.Y, depth)
+				if ok1 && ok2 {
+					if x.Op == token.SUB {
+						return a - b, true
+					}
+					return a + b, true
+				}
+			}
+		case *ast.Ident:
+			o := identObj(info, x)
+			if o == nil || depth > 3 {
+				return 0, false
+			}
+			var def ast.Expr
+			n := 0
+			ast.Inspect(sfd.Body, func(nd ast.Node) bool {
+				switch st := nd.(type) {
+				case *ast.AssignStmt:
+					for i, l := range st.Lhs {
+						if identObj(info, l) == o {
+							n++
+							if st.Tok == token.DEFINE && len(st.Lhs) == len(st.Rhs) {
+								def = st.Rhs[i]
+							}
+						}
+					}
+				case *ast.IncDecStmt:
+					if identObj(info, st.X) == o {
+						n += 2
+					}
+				}
+				return true
+			})
+			if n == 1 && def != nil {
+				return bound(def, depth+1)
+			}
+		}
+		return 0, false
+	}
 	ast.Inspect(sfd.Body, func(n ast.Node) bool {
 		if ifs, ok := n.(*ast.IfStmt); ok && len(ifs.Body.List) == 1 {
 			if br, ok := ifs.Body.List[0].(*ast.BranchStmt); ok && br.Tok == token.BREAK {
 				if be, ok := ifs.Cond.(*ast.BinaryExpr); ok && (be.Op == token.EQL || be.Op == token.GEQ) {
-					if u, ok := constUint(info, be.Y); ok {
-						K = int(u)
+					if u, ok := bound(be.Y, 0); ok && u >= 0 && identObj(info, be.X) != nil {
+						K = u
 						currObj = identObj(info, be.X)
 					}
 				}
@@ -996,37 +1323,50 @@ func (w *World) rulesSplit(p *Pkg, m *parseModel, add func(ok bool, rule, inst s
 		}
 		// `for curr < K { … }`: cutting stops when curr reaches K
 		if fs, ok := n.(*ast.ForStmt); ok && fs.Cond != nil && K < 0 {
-			if be, ok := fs.Cond.(*ast.BinaryExpr); ok {
-				// the bound: a constant, or len(dst) - constant with dst the N-slot slice
-				bound := func(e ast.Expr) (uint64, bool) {
-					if u, ok := constUint(info, e); ok {
-						return u, true
+			// the bound may be one conjunct of the condition (`i < len(s) && curr < K`)
+			var conj []ast.Expr
+			var flat func(e ast.Expr)
+			flat = func(e ast.Expr) {
+				switch x := e.(type) {
+				case *ast.ParenExpr:
+					flat(x.X)
+					return
+				case *ast.BinaryExpr:
+					if x.Op == token.LAND {
+						flat(x.X)
+						flat(x.Y)
+						return
 					}
-					lenOf := func(x ast.Expr) bool {
-						c, ok := x.(*ast.CallExpr)
-						if !ok || len(c.Args) != 1 {
-							return false
-						}
-						id, ok := c.Fun.(*ast.Ident)
-						return ok && id.Name == "len" && identObj(info, c.Args[0]) == sp[0]
-					}
-					if lenOf(e) && N >= 0 {
-						return uint64(N), true
-					}
-					if sub, ok := e.(*ast.BinaryExpr); ok && sub.Op == token.SUB && lenOf(sub.X) && N >= 0 {
-						if c, ok := constUint(info, sub.Y); ok && int(c) <= N {
-							return uint64(N) - c, true
-						}
-					}
-					return 0, false
 				}
-				if u, ok := bound(be.Y); ok && identObj(info, be.X) != nil {
+				conj = append(conj, e)
+			}
+			flat(fs.Cond)
+			for _, ce := range conj {
+				be, ok := ce.(*ast.BinaryExpr)
+				if !ok || K >= 0 {
+					continue
+				}
+				// the counter is the index of the stores into the destination slice
+				isCounter := false
+				co := identObj(info, be.X)
+				ast.Inspect(sfd.Body, func(y ast.Node) bool {
+					if as, ok := y.(*ast.AssignStmt); ok && len(as.Lhs) == 1 {
+						if ix, ok := as.Lhs[0].(*ast.IndexExpr); ok && identObj(info, ix.X) == sp[0] && co != nil && identObj(info, ix.Index) == co {
+							isCounter = true
+						}
+					}
+					return true
+				})
+				if !isCounter && len(conj) > 1 {
+					continue
+				}
+				if u, ok := bound(be.Y, 0); ok && u >= 0 && identObj(info, be.X) != nil {
 					switch be.Op {
 					case token.LSS, token.NEQ:
-						K = int(u)
+						K = u
 						currObj = identObj(info, be.X)
 					case token.LEQ:
-						K = int(u) + 1
+						K = u + 1
 						currObj = identObj(info, be.X)
 					}
 				}
@@ -1218,6 +1558,99 @@ func (p *Pkg) checkCutBounded(m *parseModel) (ok bool, why string, decided bool)
 	ok, why, decided = rec()
 	if ok && decided {
 		why = fmt.Sprintf("(bounded check) the split statement yields (before, after) the first ':' for each of the %d strings of length ≤ 6 over {a, b, ':', '/'}", n)
+	}
+	return ok, why, decided
+}
+
+// checkRegionCutBounded: as checkCutBounded, for a split written inline. The
+// statements of the region are evaluated with every variable they read bound
+// to the element (a string), a one-element list holding it ([]string), or 0
+// (integers, i.e. the position of the element).
+func (p *Pkg) checkRegionCutBounded(m *parseModel) (ok bool, why string, decided bool) {
+	info := p.Info
+	defined := map[types.Object]bool{}
+	free := map[types.Object]bool{}
+	for _, st := range m.splitRegion {
+		ast.Inspect(st, func(n ast.Node) bool {
+			id, isId := n.(*ast.Ident)
+			if !isId {
+				return true
+			}
+			if o, ok := info.Defs[id].(*types.Var); ok && o != nil {
+				defined[o] = true
+			}
+			if o, ok := info.Uses[id].(*types.Var); ok && o != nil && !o.IsField() && o.Parent() != p.P.Types.Scope() && !defined[o] {
+				free[o] = true
+			}
+			return true
+		})
+	}
+	alphabet := []byte{'a', 'b', ':', '/'}
+	n := 0
+	var cur []byte
+	var rec func() (bool, string, bool)
+	rec = func() (bool, string, bool) {
+		s := string(cur)
+		ce := newCEnv(p, nil)
+		ce.loops = true
+		for o := range free {
+			switch t := o.Type().Underlying().(type) {
+			case *types.Basic:
+				switch {
+				case t.Info()&types.IsString != 0:
+					ce.vars[o] = vStr(s)
+				case t.Info()&types.IsInteger != 0:
+					ce.vars[o] = vInt(0)
+				default:
+					return false, "", false
+				}
+			case *types.Slice:
+				if !isStringT(t.Elem()) {
+					return false, "", false
+				}
+				ce.vars[o] = Val{K: VList, T: []Val{vStr(s)}}
+			default:
+				return false, "", false
+			}
+		}
+		ct, _, err := ce.execBlock(m.splitRegion)
+		if err != nil {
+			if pe, isPanic := err.(*panicked); isPanic {
+				return false, fmt.Sprintf("the split of %q panics: %s", s, pe.msg), true
+			}
+			return false, "", false
+		}
+		if ct == cReturn || ct == cBreak || ct == cContinue {
+			return false, "", false
+		}
+		a, v := ce.vars[m.abvObj], ce.vars[m.valObj]
+		if a.K != VStr || v.K != VStr {
+			return false, "", false
+		}
+		wa, wv := s, ""
+		if i := strings.IndexByte(s, ':'); i >= 0 {
+			wa, wv = s[:i], s[i+1:]
+		}
+		n++
+		if a.S != wa || v.S != wv {
+			return false, fmt.Sprintf("the element %q is split into (%q, %q), expected (%q, %q): the value or the abbreviation is read from the wrong part", s, a.S, v.S, wa, wv), true
+		}
+		if len(cur) == 6 {
+			return true, "", true
+		}
+		for _, c := range alphabet {
+			cur = append(cur, c)
+			ok, why, dec := rec()
+			cur = cur[:len(cur)-1]
+			if !ok || !dec {
+				return ok, why, dec
+			}
+		}
+		return true, "", true
+	}
+	ok, why, decided = rec()
+	if ok && decided {
+		why = fmt.Sprintf("(bounded check) the inline split yields (before, after) the first ':' for each of the %d strings of length ≤ 6 over {a, b, ':', '/'}", n)
 	}
 	return ok, why, decided
 }
